@@ -449,7 +449,7 @@ func tabulateDispatch(c *core.Ctx, m *jsonModel, f *ssa.Function) [256]dispatchO
 
 // R09.3
 var ruleSeparators = &core.Rule{ID: "R09.3", Min: 6,
-	Doc: "separators and closers, tabulated over 0..255 from the container loops: the value dispatch sends '[' to the array scanner, '{' to the object scanner, '\"' to the string scanner; after a value in an array only ',' continues and only ']' closes; in an object only ',' continues and only '}' closes; a key must start with '\"' and be followed by ':'; every other byte fails the container",
+	Doc: "separators and closers, tabulated over 0..255 from the container loops: the value dispatch sends '[' to the array scanner, '{' to the object scanner, '\"' to the string scanner; after a value in an array only ',' continues and only ']' closes; in an object only ',' continues and only '}' closes; a key must start with '\"' and be followed by ':'; every other byte fails the container; loads of the same input byte are one test",
 	Run: func(c *core.Ctx, s *core.Sink) {
 		m := getJSON(c)
 		g := m.guardFn
@@ -1034,7 +1034,7 @@ func boolPredicatesCalledBy(f *ssa.Function, stopAt ...*ssa.Function) []*ssa.Fun
 
 // R09.5
 var ruleLexTables = &core.Rule{ID: "R09.5", Min: 6,
-	Doc: "lexical tables of the scalar scanners, tabulated over 0..255: white space is exactly SP HT LF CR; digits are 0-9; hex digits are 0-9a-fA-F; in the string scanner only '\"' ends the string and only '\\\\' starts an escape, the one-character escapes are exactly \" \\\\ / b f n r t, 'u' goes on to the hex digits, every other escape fails; a non-hex digit in \\\\uXXXX fails",
+	Doc: "lexical tables of the scalar scanners, tabulated over 0..255: white space is exactly SP HT LF CR; digits are 0-9; hex digits are 0-9a-fA-F; in the string scanner only '\"' ends the string and only '\\\\' starts an escape, the one-character escapes are exactly \" \\\\ / b f n r t, 'u' goes on to the hex digits, every other escape fails; a non-hex digit in \\\\uXXXX fails; the tables are taken over the scanner and the family helpers it delegates to",
 	Run: func(c *core.Ctx, s *core.Sink) {
 		m := getJSON(c)
 		g := m.guardFn
